@@ -29,10 +29,20 @@ for d in sorted(glob.glob(os.path.join(HERE, 'seeded', '*'))):
         for p, c in sorted(m['checks'].items()) if c.get('caught')]
     missed = [p for p, c in sorted(m['checks'].items()) if not c.get('caught')]
     hist = m.get('history', '')
+    st = m.get('status_on_current_head') or {}
+    if st and not st.get('applies', True):
+        hist = ('moot now: the patch no longer applies (later repository '
+                'fixes touched the same lines); result from the tree it was '
+                'written for. ' + hist)
+    elif st and not st.get('still_breaks', True):
+        hist = ('moot now: after the node-sharing repair it no longer '
+                'breaks the property (nodes are never shared once aliases '
+                'are expanded); result from the tree it was written for. '
+                + hist)
     rows.append('| %s | %s | %s | %s | %s |' % (
         m['seed'], m['breaks_property'], title,
         '<br>'.join(caught) or '**not caught**',
-        (hist[:160] + ('...' if len(hist) > 160 else '')) or (
+        (hist[:330] + ('...' if len(hist) > 330 else '')) or (
             'also run, silent: ' + ', '.join(missed) if missed else '')))
 table = ('| seed | breaks | change (first line of the agent\'s notes) | caught '
          'by quick check (first mechanism keys) | history |\n'
